@@ -135,14 +135,18 @@ func ConvertRecordValueToJsonStructure(pathes []PathExpression, row []value.Prim
 		return nil, errors.New("field length does not match")
 	}
 
+	var err error
 	for i, path := range pathes {
-		structure = addPathValueToRowStructure(structure, path.(ObjectPath), row[i], fieldLen)
+		structure, err = addPathValueToRowStructure(structure, path.(ObjectPath), row[i], fieldLen)
+		if err != nil {
+			return nil, err
+		}
 	}
 
 	return structure, nil
 }
 
-func addPathValueToRowStructure(parent json.Structure, path ObjectPath, val value.Primary, fieldLen int) json.Structure {
+func addPathValueToRowStructure(parent json.Structure, path ObjectPath, val value.Primary, fieldLen int) (json.Structure, error) {
 	var obj json.Object
 	if parent == nil {
 		obj = json.NewObject(fieldLen)
@@ -153,7 +157,18 @@ func addPathValueToRowStructure(parent json.Structure, path ObjectPath, val valu
 	if path.Child == nil {
 		obj.Add(path.Name, ParseValueToStructure(val))
 	} else {
-		valueStructure := addPathValueToRowStructure(obj.Value(path.Name), path.Child.(ObjectPath), val, fieldLen)
+		child := obj.Value(path.Name)
+		if child != nil {
+			// set by an earlier field: members can be added to it only if that field's path goes deeper as well
+			if _, ok := child.(json.Object); !ok {
+				return nil, errors.New(fmt.Sprintf("json object member %q already has a value and cannot have the member %q", path.Name, path.Child.(ObjectPath).Name))
+			}
+		}
+
+		valueStructure, err := addPathValueToRowStructure(child, path.Child.(ObjectPath), val, fieldLen)
+		if err != nil {
+			return nil, err
+		}
 		if obj.Exists(path.Name) {
 			obj.Update(path.Name, valueStructure)
 		} else {
@@ -161,7 +176,7 @@ func addPathValueToRowStructure(parent json.Structure, path ObjectPath, val valu
 		}
 	}
 
-	return obj
+	return obj, nil
 }
 
 func ParseValueToStructure(val value.Primary) json.Structure {
